@@ -2382,6 +2382,49 @@ class Machine:
                            cls=_cname(obj))
         self.ev(slot=a)
 
+    # --------------------------------------- systematic cell of the batch
+    def op_cell(self, op, rng):
+        """Run ``index`` of a batch visits cell ``index mod #cells`` of
+        class x parameter x entry point {constructor, assignment,
+        copy(**changes)} (the quick tier visits every cell about fifteen
+        times); the invalid value is drawn from the parameter kind's
+        catalogue with the run's seed."""
+        cells = c17_cells()
+        k = op['cell']
+        cls, f, kind, entry = cells[k % len(cells)]
+        vals = invalid_values(kind)
+        value, rec = rng.pick(vals)
+        obj, m = self.new_simple(rng, cls)
+        a = self.add_slot('region', obj, m)
+        m.stored = {}
+        bad = build_invalid(rec)
+        value = f'{kind}:{value}'
+        if entry == 'ctor':
+            kw = {g: mk_value(kd, m.tok[g]) for g, kd in m.fields()}
+            kw[f] = bad
+            import regions
+            what = f'{cls}({f}={value})'
+            fn = lambda: getattr(regions, cls)(**kw)  # noqa
+            tgt = None
+        elif entry == 'setattr':
+            what = f'{cls}.{f} = {value}'
+            fn = lambda: setattr(obj, f, bad)  # noqa
+            tgt = a
+        else:
+            what = f'{cls}.copy({f}={value})'
+            fn = lambda: obj.copy(**{f: bad})  # noqa
+            tgt = None
+        out, res = self.c17_outcome(fn, True, what, cls, f, value, target=tgt)
+        self.ev(slot=a, cls=cls, field=f, value=value, invalid=True,
+                entry=entry, outcome=out)
+        if out == 'wrongly-accepted':
+            if entry == 'setattr':
+                m.tainted.add(f)
+            else:
+                n = mcopy(m)
+                n.tainted.add(f)
+                self.add_slot('region', res, n)
+
     # ------------------------------------------------- copy with changes
     def op_copyset(self, op, rng):
         """``region.copy(field=value)``: the same domain as assignment."""
@@ -2584,6 +2627,19 @@ C17_OPS = [('construct', 6), ('setattr', 8), ('delattr', 1.5),
            ('copyset', 2.5)]
 
 
+_C17_CELLS = []
+
+
+def c17_cells():
+    if not _C17_CELLS:
+        for cls in sorted(gen.ALL_CLASSES):
+            for f, kind in gen.ALL_CLASSES[cls]:
+                if invalid_values(kind):
+                    for entry in ('ctor', 'setattr', 'copy'):
+                        _C17_CELLS.append((cls, f, kind, entry))
+    return _C17_CELLS
+
+
 def gen_plan(seed, index, tier='quick', mode='c16'):
     cfg = Stream(seed, 'config')
     ops = Stream(seed, 'ops')
@@ -2596,6 +2652,10 @@ def gen_plan(seed, index, tier='quick', mode='c16'):
     nmax = 30 if mode == 'c16' else 20
     n = cfg.randint(3, nmax)
     plan_ops = [{'op': first, 's': 0, 'r': ops.getrandbits(48)}]
+    if mode == 'c17':
+        # the batch enumerates class x parameter x entry point (see op_cell)
+        plan_ops.insert(cfg.randint(0, 1), {
+            'op': 'cell', 's': 0, 'cell': index, 'r': ops.getrandbits(48)})
     while len(plan_ops) < n:
         k = ops.weighted(enabled)
         plan_ops.append({'op': k, 's': ops.randrange(64),
